@@ -168,6 +168,18 @@ CHECKS["C16"] = dict(engine="bytes-wrappers", ref="4 (Engine BYTES, C16)",
          "split and random splits, receive == decoding of the whole, TextSendStream -> TextReceiveStream is the identity. "
          "Inputs enumerated, schedules sampled: exploration level.")
 
+CHECKS["C17"] = dict(engine="bytes-tls", ref="4 (Engine BYTES, C17)",
+    technique="deterministic simulation with fault injection: real ssl/TLSStream endpoints over a simulated transport whose "
+              "fragmentation, coalescing, delays, truncation offset and bit flips are seeded; per-direction byte-stream and "
+              "end-of-stream classification oracles",
+    text="Real CPython ssl (TLS 1.2 and 1.3) and real TLSStream on both ends of an in-memory Wire pair. Seeded message-size "
+         "sequences (0 bytes to several records), receive sizes from 1 byte, simplex and full-duplex workloads, per-direction "
+         "re-chunking from 1-byte fragments to full coalescing, and a fault: truncation at a seeded ciphertext offset (within "
+         "the handshake, mid-record, between records, 1..60 bytes before the end) or one flipped bit. Oracles: bytes read are a "
+         "prefix of bytes written (equal when clean); 1 <= len(chunk) <= max_bytes; clean close => EndOfStream; truncation => "
+         "BrokenResourceError when standard_compatible, EndOfStream otherwise, never the other way round; with a bit flip never "
+         "wrong plaintext; no hang. Exploration level.")
+
 NOT_YET = "check not built yet in this snapshot of /verif (work in progress; see DESIGN.md section 4 for the plan)"
 
 
@@ -192,7 +204,7 @@ def main():
     engines = {}
     for pid, c in CHECKS.items():
         engines.setdefault(c["engine"], []).append(pid)
-    paths = {"sync-permits": "engines/permits.py", "sc": "engines/sc.py", "sync-conditions": "engines/conds.py", "sync-checkpoints": "engines/checkpoints.py", "mem": "engines/mem.py", "sc-deadlines": "engines/deadlines.py", "func-itertools": "engines/func_iter.py", "func-lru": "engines/func_lru.py", "bytes-wrappers": "engines/bytes_buffered.py"}
+    paths = {"sync-permits": "engines/permits.py", "sc": "engines/sc.py", "sync-conditions": "engines/conds.py", "sync-checkpoints": "engines/checkpoints.py", "mem": "engines/mem.py", "sc-deadlines": "engines/deadlines.py", "func-itertools": "engines/func_iter.py", "func-lru": "engines/func_lru.py", "bytes-wrappers": "engines/bytes_buffered.py", "bytes-tls": "engines/bytes_tls.py"}
     try:
         hooks = [l.split()[0] for l in subprocess.run(
             ["git", "-C", "/repo", "log", "--format=%h %s", "--grep=^hook:"], capture_output=True, text=True
